@@ -104,7 +104,8 @@ example : curvePoint 2 (fnOf (knotNormalize ([1,1,1,3,5,5,5] : List ℚ))) [[0,0
   curve_point_normalized_knots 2 _ _ 4 (by simp) (by decide +kernel)
 
 /-- memoisation: starting from an empty cache of any capacity, the answers to any sequence of
-    calls are exactly the function values -/
+    calls are exactly the function values
+    (Generic fact about the LRU model, for any function `f`; that the memoised routines of the library are such functions is a harness check.) -/
 theorem lru_transparent {α β : Type} [DecidableEq α] (f : α → β) (cap : ℕ) (xs : List α) :
     LRU.run f (LRU.mk cap []) xs = xs.map f :=
   LRU.run_eq_map f xs _ (LRU.empty_inv f cap)
